@@ -10,6 +10,7 @@ import (
 	"os"
 	"path/filepath"
 	"reflect"
+	"regexp"
 	"strings"
 
 	"github.com/dave/dst"
@@ -47,7 +48,8 @@ func scanItems(src []byte) ([]scanItem, error) {
 		}
 		switch {
 		case tok == token.COMMENT:
-			out = append(out, scanItem{"com", strings.TrimRight(lit, "\r\n")})
+			// go/printer re-indents the continuation lines of a multi-line block comment
+			out = append(out, scanItem{"com", contIndentRe.ReplaceAllString(strings.TrimRight(lit, "\r\n"), "\n")})
 		case tok == token.SEMICOLON:
 			out = append(out, scanItem{"tok", ";"})
 		case tok.IsLiteral():
@@ -61,6 +63,8 @@ func scanItems(src []byte) ([]scanItem, error) {
 	}
 	return out, nil
 }
+
+var contIndentRe = regexp.MustCompile(`\n[ \t]*`)
 
 type decOverride struct {
 	N int      `json:"n"`
@@ -280,6 +284,8 @@ func c04Record(c *Ctx, idx int, f *dst.File, r *rand.Rand, maxCases int) traceIt
 				d = []string{fmt.Sprintf("// M%d.%s", p.id, p.name)}
 			case "newline":
 				d = []string{"\n"}
+			case "multiline":
+				d = []string{fmt.Sprintf("/*\nM%d.%s\ncontinued\n*/", p.id, p.name)}
 			case "mixed":
 				d = []string{fmt.Sprintf("/*M%d.%s.a*/", p.id, p.name), "\n", fmt.Sprintf("/*M%d.%s.b*/", p.id, p.name)}
 			}
@@ -288,6 +294,20 @@ func c04Record(c *Ctx, idx int, f *dst.File, r *rand.Rand, maxCases int) traceIt
 		}
 		text, msg := printFile(f)
 		var pitems []posItem
+		if msg == "" {
+			// the same tree through a restorer whose file set already holds a file: what is rendered may
+			// not depend on where in the file set the file lands
+			var b2 bytes.Buffer
+			var e2 error
+			pre := decorator.NewRestorer()
+			pre.Fset = token.NewFileSet()
+			pre.Fset.AddFile("earlier.go", -1, 1234)
+			m2 := guard(func() { e2 = pre.Fprint(&b2, f) })
+			if m2 != "" || e2 != nil || b2.String() != text {
+				c.Eval(fmt.Sprintf("%s|%s|%s|fileset", key, kind, label), true)
+				c.Fail(Finding{Sig: "render-depends-on-fileset", Input: fmt.Sprintf("%s|%s|%s", key, kind, label), What: fmt.Sprintf("a restorer whose file set already holds a file prints differently (%s %v):\n%s\nfresh restorer:\n%s", m2, e2, truncate(b2.String(), 400), truncate(text, 400)), Replay: obj{"kind": "c04", "mini": idx}})
+			}
+		}
 		if msg == "" {
 			// restore once more to look at the positions the restorer assigned
 			_, ids := ExportDst(f)
@@ -319,6 +339,12 @@ func c04Record(c *Ctx, idx int, f *dst.File, r *rand.Rand, maxCases int) traceIt
 			c.Add("inapplicable_cases", 1)
 			return
 		}
+		if kind == "multiline" && strings.Contains(text, "//*") {
+			// go/printer writes a multi-line comment that precedes a '/' operator behind the operator,
+			// without a blank between them: "//*" starts a line comment (go/printer's doing, with or without dst)
+			c.Add("inapplicable_cases", 1)
+			return
+		}
 		c.Eval(ck, len(sel) > 0)
 		cases++
 		if ov == nil {
@@ -327,7 +353,7 @@ func c04Record(c *Ctx, idx int, f *dst.File, r *rand.Rand, maxCases int) traceIt
 		if pitems == nil {
 			pitems = []posItem{}
 		}
-		out.Add(obj{"ev": "case", "ov": ov, "items": its, "pitems": pitems, "kind": kind, "strict": (kind == "block" || kind == "mixed") && !hasImport, "printed": !hasImport && kind != "line"})
+		out.Add(obj{"ev": "case", "ov": ov, "items": its, "pitems": pitems, "kind": kind, "strict": (kind == "block" || kind == "mixed" || kind == "multiline") && !hasImport, "printed": !hasImport && kind != "line"})
 		if idx%17 == 0 && cases == 3 {
 			c.Sample(obj{"fragment": idx, "markers": ov, "printed": truncate(text, 300)})
 		}
@@ -347,7 +373,8 @@ func c04Record(c *Ctx, idx int, f *dst.File, r *rand.Rand, maxCases int) traceIt
 		run([]int{pi}, "block", fmt.Sprint(pi))
 		run([]int{pi}, "line", fmt.Sprint(pi))
 		run([]int{pi}, "newline", fmt.Sprint(pi))
-		budget -= 3
+		run([]int{pi}, "multiline", fmt.Sprint(pi))
+		budget -= 4
 	}
 	for k := 0; k < 6 && len(pts) > 1; k++ {
 		a, b := r.Intn(len(pts)), r.Intn(len(pts))
